@@ -111,6 +111,16 @@ def _install_map_models(ex):
         fsmodels.record(ex_, st, "map-remove", path=k, map=m, ok=z3.BoolVal(True))
         return VEnum("Option", ex_.fresh_int("old_present", lo=0, hi=1), {0: [], 1: [VOpaque("previous value")]})
 
+    def mentry(ex_, st, args, dest_ty, func, where):
+        m, k = mapid(ex_, st, args[0]), fsmodels.path_term(ex_, st, args[1])
+        return VStruct("AbsEntry", [VInt(m, "usize"), VInt(k, "usize")])
+
+    def or_insert(ex_, st, args, dest_ty, func, where):
+        e = fsmodels._deep(ex_, st, args[0])
+        v = fsmodels._deep(ex_, st, args[1])
+        fsmodels.record(ex_, st, "map-insert-if-absent", path=e.f[1].t, map=e.f[0].t, value=v, ok=z3.BoolVal(True))
+        return VRef("val", val=v)
+
     def vpush(ex_, st, args, dest_ty, func, where):
         fsmodels.record(ex_, st, "conflict-listed", path=fsmodels.path_term(ex_, st, args[1]), ok=z3.BoolVal(True))
         return UNIT
@@ -130,6 +140,8 @@ def _install_map_models(ex):
                  (_re.compile(r"^BTreeMap::<PathBuf, Fingerprint>::contains_key::<"), mcontains, "BTreeMap::contains_key (abstract map)"),
                  (_re.compile(r"^BTreeMap::<PathBuf, Fingerprint>::insert$"), minsert, "BTreeMap::insert (recorded)"),
                  (_re.compile(r"^BTreeMap::<PathBuf, Fingerprint>::remove::<"), mremove, "BTreeMap::remove (recorded)"),
+                 (_re.compile(r"^BTreeMap::<PathBuf, Fingerprint>::entry$"), mentry, "BTreeMap::entry (abstract map)"),
+                 (_re.compile(r"^(std::collections::btree_map::)?Entry::<'_, PathBuf, Fingerprint>::or_insert$"), or_insert, "Entry::or_insert (recorded as insert-IF-ABSENT: not an update)"),
                  (_re.compile(r"^Vec::<PathBuf>::push$"), vpush, "Vec<PathBuf>::push (recorded)"),
                  (_re.compile(r"^<\[u8; 32\] as PartialOrd>::(ge|gt|le|lt)$"), arr_ge, "<[u8; 32] as PartialOrd> (lexicographic)"),
                  ] + ex.models
@@ -373,18 +385,22 @@ def _install_archive_models(ex):
 
     def fs_read(ex_, st, args, dest_ty, func, where):
         okr = ex_.fresh_bool("read_ok")
-        fsmodels.record(ex_, st, "read", path=fsmodels.path_term(ex_, st, args[0]), ok=okr)
+        kind = ex_.fresh_int("errkind", lo=1, hi=64)
+        e = fsmodels.record(ex_, st, "read", path=fsmodels.path_term(ex_, st, args[0]), ok=okr, errkind=kind)
         n = ex_.fresh_int("file_bytes", lo=0, hi=(1 << 40))
-        return fsmodels.io_result(ex_, okr, VSeq(z3.Array("ARCHIVE_BYTES", z3.IntSort(), z3.IntSort()), I(0), n, "u8"))
+        e["bytes_id"] = I(1000 + e["seq"])
+        # the bytes of each read are named by a distinct offset marker (so the parser's input can be traced to a read)
+        return fsmodels.io_result(ex_, okr, VSeq(z3.Array("FILE_BYTES_%d" % e["seq"], z3.IntSort(), z3.IntSort()), I(0), n, "u8"), kind=kind)
 
     def from_slice(ex_, st, args, dest_ty, func, where):
+        src = codecmodels.as_seq(ex_, st, args[0])
         okp = ex_.fresh_bool("parse_ok")
         fv = ex_.fresh_int("parsed_format_version", ty="u32")
         arc = VStruct("Archive", [VInt(fv, "u32"), strv(z3.Int("PARSED_PAIR")), VInt(ex_.fresh_int("parsed_epoch", ty="u64"), "u64"),
                                   strv(z3.Int("PARSED_HOST")), VStruct("AbsMap", [VInt(I(77), "usize")])])
         ex_.inputs = getattr(ex_, "inputs", {})
         ex_.inputs["parse"] = (okp, fv)
-        fsmodels.record(ex_, st, "json-parse", path=I(0), ok=okp)
+        fsmodels.record(ex_, st, "json-parse", path=I(0), ok=okp, input=str(src.arr))
         return VEnum("Result", simp(z3.If(okp, I(0), I(1))), {0: [arc], 1: [VOpaque("serde_json::Error")]})
 
     def to_vec(ex_, st, args, dest_ty, func, where):
@@ -426,12 +442,14 @@ def load_obligations(ctx, R, prover, pid):
     eff = fsmodels.effects(ex)
     reads = [e for e in eff if e["call"] == "read"]
     parses = [e for e in eff if e["call"] == "json-parse"]
-    if len(reads) != 1 or len(parses) != 1:
-        raise Inconclusive("expected one read and one parse in Archive::load, found %d / %d" % (len(reads), len(parses)))
+    if len(parses) != 1 or not reads:
+        raise Inconclusive("expected reads and exactly one parse in Archive::load, found %d / %d" % (len(reads), len(parses)))
     okp, fv = ex.inputs["parse"]
     loaded = simp(res.discr == 1)
     FV = format_version_const()
-    trusted = z3.And(reads[0]["ok"], okp, fv == FV, z3.Int("PARSED_PAIR") == EXPECT)
+    # the parsed bytes are those of a successful read OF THE ARCHIVE PATH
+    from_archive = _any(z3.And(r["guard"], r["ok"], r["path"] == PATH, z3.BoolVal(parses[0]["input"] == "FILE_BYTES_%d" % r["seq"])) for r in reads)
+    trusted = z3.And(from_archive, okp, fv == FV, z3.Int("PARSED_PAIR") == EXPECT)
     goals = {"an-archive-is-returned-only-if-it-was-read,-parsed,-has-format-version-%d-and-belongs-to-this-pair" % FV: loaded == trusted,
              "only-the-archive-file-is-read-and-nothing-is-written": _all(z3.Implies(e["guard"], z3.And(z3.BoolVal(e["call"] in ("read", "json-parse")), z3.Or(e["call"] != "read", e["path"] == PATH))) for e in eff)}
     if 1 in res.pay:
@@ -515,7 +533,7 @@ def run_obligations(ctx, R, prover, pid, U=2):
     patchmodels.install(ex)
     codecmodels.install(ex)
     fsmodels.install(ex)
-    stdmodels.install_collections(ex, U, 2 * U + 2)
+    stdmodels.install_collections(ex, 2 * U, 4 * U + 2)
     enums = ctx.enums
     A, CK = enums["Action"], enums["ConflictKind"]
     maps, fps, pres = {}, {}, {}
@@ -526,6 +544,10 @@ def run_obligations(ctx, R, prover, pid, U=2):
             fp = sym_fp(ex, "%s%d" % (m, u), enums)
             pres[(m, u)], fps[(m, u)] = p, fp
             entries.append(VStruct("entry", [VBool(p), fp[0]]))
+        # ids U..2U-1 name the conflict copies `<path u>.conflict-<host>-<hash>`: fresh names, on neither side before the run
+        # (ASSUMED), possibly recorded in the archive by an earlier run only if still on disk - taken as absent here
+        for u in range(U):
+            entries.append(VStruct("entry", [VBool(z3.BoolVal(False)), fps[(m, u)][0]]))
         maps[m] = stdmodels.mk_map(entries)
     loaded = ex.fresh_bool("archive_loaded")
     dry = ex.fresh_bool("dry_run")
@@ -560,7 +582,7 @@ def run_obligations(ctx, R, prover, pid, U=2):
 
     def s_fresh(ex_, st, args, dest_ty, func, where):
         return VStruct("Archive", [VInt(I(1), "u32"), fsmodels._deep(ex_, st, args[0]), VInt(I(0), "u64"), fsmodels._deep(ex_, st, args[1]), stdmodels.mk_map(
-            [VStruct("entry", [VBool(z3.BoolVal(False)), fps[("z", u)][0]]) for u in range(U)])])
+            [VStruct("entry", [VBool(z3.BoolVal(False)), fps[("z", u % U)][0]]) for u in range(2 * U)])])
 
     def entries_of(ex_, st, v):
         m = fsmodels._deep(ex_, st, v)
@@ -576,28 +598,35 @@ def run_obligations(ctx, R, prover, pid, U=2):
         cref = args[7]
         ec = entries_of(ex_, st, cref)
         okv = ex_.fresh_bool("apply_ok")
-        rec("apply", st, rel=rel, act=act, ok=okv, a_is_scan=[z3.And(x.f[0].t == pres[("a", u)]) for u, x in enumerate(ea)],
-            b_is_scan=[z3.And(x.f[0].t == pres[("b", u)]) for u, x in enumerate(eb)])
+        rec("apply", st, rel=rel, act=act, ok=okv)
         d = act.discr
         kd = act.pay[A["Conflict"]][0].discr if A["Conflict"] in act.pay else I(0)
         new = []
+        from mirsmt.symexec import merge
+        both_of = {}
         for u in range(U):
             here = rel == u
             a_has, b_has = ea[u].f[0].t, eb[u].f[0].t
             fa, fb = fps[("a", u)], fps[("b", u)]
             a_wins = lex_ge([x.t for x in fa[1]], [x.t for x in fb[1]])
+            is_both = z3.And(d == A["Conflict"], kd == CK["BothChanged"], a_has, b_has)
+            both_of[u] = (z3.And(here, is_both), a_wins)
             from_a = z3.Or(z3.And(z3.Or(d == A["PropagateAtoB"], d == A["ConvergeIdentical"]), a_has),
                            z3.And(d == A["Conflict"], kd == CK["DeleteVsModify"], a_has),
-                           z3.And(d == A["Conflict"], kd == CK["BothChanged"], a_has, b_has, a_wins))
+                           z3.And(is_both, a_wins))
             from_b = z3.Or(z3.And(d == A["PropagateBtoA"], b_has),
                            z3.And(d == A["Conflict"], kd == CK["DeleteVsModify"], z3.Not(a_has), b_has),
-                           z3.And(d == A["Conflict"], kd == CK["BothChanged"], a_has, b_has, z3.Not(a_wins)))
+                           z3.And(is_both, z3.Not(a_wins)))
             removed = z3.Or(d == A["DeleteA"], d == A["DeleteB"])
             p_old, v_old = ec[u].f[0].t, ec[u].f[1]
             p_new = simp(z3.If(here, z3.If(z3.Or(from_a, from_b), True, z3.If(removed, False, p_old)), p_old))
-            from mirsmt.symexec import merge
             v_new = merge(simp(z3.And(here, from_a)), ea[u].f[1], merge(simp(z3.And(here, from_b)), eb[u].f[1], v_old))
             new.append(VStruct("entry", [VBool(p_new), v_new]))
+        for u in range(U):
+            # the conflict-copy name of path u gets the LOSING fingerprint when a both-changed conflict is applied to u
+            hit, a_wins = both_of[u]
+            p_old, v_old = ec[U + u].f[0].t, ec[U + u].f[1]
+            new.append(VStruct("entry", [VBool(simp(z3.Or(hit, p_old))), merge(simp(z3.And(hit, a_wins)), eb[u].f[1], merge(simp(z3.And(hit, z3.Not(a_wins))), ea[u].f[1], v_old))]))
         set_map(ex_, st, cref, new)
         return fsmodels.io_result(ex_, okv)
 
@@ -625,13 +654,13 @@ def run_obligations(ctx, R, prover, pid, U=2):
     def s_reconcile(ex_, st, args, dest_ty, func, where):
         ez = entries_of(ex_, st, args[2])
         rec("reconcile", st, trust=args[3].t, base_entries=ez,
-            a_ok=_all(x.f[0].t == pres[("a", u)] for u, x in enumerate(entries_of(ex_, st, args[0]))),
-            b_ok=_all(x.f[0].t == pres[("b", u)] for u, x in enumerate(entries_of(ex_, st, args[1]))))
+            a_ok=_all(x.f[0].t == pres[("a", u)] for u, x in enumerate(entries_of(ex_, st, args[0])[:U])),
+            b_ok=_all(x.f[0].t == pres[("b", u)] for u, x in enumerate(entries_of(ex_, st, args[1])[:U])))
         return ex_.exec_fn(real_reconcile, args, st)
     S["reconcile"] = s_reconcile
 
     def map_new(ex_, st, args, dest_ty, func, where):
-        return stdmodels.mk_map([VStruct("entry", [VBool(z3.BoolVal(False)), fps[("z", u)][0]]) for u in range(U)])
+        return stdmodels.mk_map([VStruct("entry", [VBool(z3.BoolVal(False)), fps[("z", u % U)][0]]) for u in range(2 * U)])
 
     def map_clone(ex_, st, args, dest_ty, func, where):
         return fsmodels._deep(ex_, st, args[0])
@@ -648,11 +677,60 @@ def run_obligations(ctx, R, prover, pid, U=2):
         set_map(ex_, st, ref, new)
         return UNIT
 
+    def map_remove(ex_, st, args, dest_ty, func, where):
+        ref = args[0]
+        kid = stdmodels._key_id(ex_, st, args[1])
+        ents = entries_of(ex_, st, ref)
+        was = simp(z3.Or(*[z3.And(kid == j, e.f[0].t) for j, e in enumerate(ents)]))
+        set_map(ex_, st, ref, [VStruct("entry", [VBool(simp(z3.And(e.f[0].t, kid != j))), e.f[1]]) for j, e in enumerate(ents)])
+        return VEnum("Option", simp(z3.If(was, I(1), I(0))), {0: [], 1: [VOpaque("removed value")]})
+
+    def map_insert(ex_, st, args, dest_ty, func, where):
+        from mirsmt.symexec import merge
+        ref = args[0]
+        kid = stdmodels._key_id(ex_, st, args[1])
+        val = fsmodels._deep(ex_, st, args[2])
+        ents = entries_of(ex_, st, ref)
+        set_map(ex_, st, ref, [VStruct("entry", [VBool(simp(z3.Or(e.f[0].t, kid == j))), merge(simp(kid == j), val, e.f[1])]) for j, e in enumerate(ents)])
+        return VEnum("Option", ex_.fresh_int("had", lo=0, hi=1), {0: [], 1: [VOpaque("previous value")]})
+
     def unit(ex_, st, args, dest_ty, func, where):
         return UNIT
 
     def opaque(ex_, st, args, dest_ty, func, where):
         return VOpaque(func[:40])
+
+    def partition(ex_, st, args, dest_ty, func, where):
+        from mirsmt.deltamodels import call_closure, vlist_push
+        from mirsmt.symexec import merge
+        it = fsmodels._deep(ex_, st, args[0])
+        lst = it.f[0] if isinstance(it, VStruct) and it.name == "SliceIter" else it
+        if not isinstance(lst, VList):
+            raise Unsupported("partition over %r" % (lst,))
+        yes, no = VList([], I(0), "ref"), VList([], I(0), "ref")
+        for i, item in enumerate(lst.items):
+            live = simp(i < lst.len)
+            r = VRef("val", val=item)
+            keep = call_closure(ex_, st, fsmodels._deep(ex_, st, args[1]), [VRef("val", val=r)], where)
+            for which, c in (("yes", z3.And(live, keep.t)), ("no", z3.And(live, z3.Not(keep.t)))):
+                cur = yes if which == "yes" else no
+                pushed = vlist_push(cur, r)
+                same = VList(list(cur.items) + [r], cur.len, cur.elem)
+                newl = merge(simp(c), pushed, same)
+                if which == "yes":
+                    yes = newl
+                else:
+                    no = newl
+        return VStruct("(tuple)", [yes, no])
+
+    def into_iter_next(ex_, st, args, dest_ty, func, where):
+        from mirsmt.deltamodels import _iter_elem
+        ref = args[0]
+        it = ex_.deref(st, ref)
+        s_, idx = it.f
+        has = simp(idx.t < s_.len) if s_.items else z3.BoolVal(False)
+        ex_.store_ref(st, ref, VStruct("SliceIter", [s_, VInt(simp(z3.If(has, idx.t + 1, idx.t)), "usize")]))
+        return opt_sym(has, _iter_elem(s_, idx.t) if s_.items else VOpaque("no element"))
 
     def count(ex_, st, args, dest_ty, func, where):
         return VInt(ex_.fresh_int("count", ty="usize"), "usize")
@@ -671,10 +749,12 @@ def run_obligations(ctx, R, prover, pid, U=2):
                  (_re.compile(r"^Path::display$"), opaque, "Path::display (opaque)"),
                  (_re.compile(r"^BTreeMap::<PathBuf, Fingerprint>::new$"), map_new, "BTreeMap::new"),
                  (_re.compile(r"^<BTreeMap<PathBuf, Fingerprint> as Clone>::clone$"), map_clone, "BTreeMap::clone"),
+                 (_re.compile(r"^BTreeMap::<PathBuf, Fingerprint>::remove::<"), map_remove, "BTreeMap::remove (universe model)"),
+                 (_re.compile(r"^BTreeMap::<PathBuf, Fingerprint>::insert$"), map_insert, "BTreeMap::insert (universe model)"),
                  (_re.compile(r"^BTreeMap::<PathBuf, Fingerprint>::retain::<"), map_retain, "BTreeMap::retain (closure evaluated per universe entry)"),
                  (_re.compile(r"^<std::iter::Filter<std::slice::Iter<'_, \(PathBuf, Action\)>, .*> as Iterator>::count$"), count, "Filter::count (feeds a log line only: arbitrary)"),
                  (_re.compile(r"^<std::slice::Iter<'_, \(PathBuf, Action\)> as Iterator>::filter::<"), opaque, "Iterator::filter (feeds a log line only)"),
-                 (_re.compile(r"^core::slice::<impl \[\(PathBuf, Action\)\]>::iter$"), opaque, "slice::iter (feeds a log line only)"),
+                 (_re.compile(r"^core::slice::<impl \[\(PathBuf, Action\)\]>::iter$"), patchmodels._ref_vec_into_iter, "slice::iter"),
                  (_re.compile(r"^<Vec<\(PathBuf, Action\)> as Deref>::deref$"), lambda e_, s_, a, d, f, w: a[0], "Vec deref"),
                  (_re.compile(r"^Vec::<\(PathBuf, Action\)>::is_empty$"), lambda e_, s_, a, d, f, w: VBool(simp(fsmodels._deep(e_, s_, a[0]).len == 0)), "Vec::is_empty"),
                  (_re.compile(r"^Vec::<\(PathBuf, Action\)>::len$"), lambda e_, s_, a, d, f, w: VInt(fsmodels._deep(e_, s_, a[0]).len, "usize"), "Vec::len"),
@@ -682,6 +762,10 @@ def run_obligations(ctx, R, prover, pid, U=2):
                  (_re.compile(r"^Vec::<\(PathBuf, Action\)>::push$"), deltamodels._vlist_push, "Vec<(PathBuf, Action)>::push"),
                  (_re.compile(r"^<&Vec<\(PathBuf, Action\)> as IntoIterator>::into_iter$"), patchmodels._ref_vec_into_iter, "<&Vec<T>>::into_iter"),
                  (_re.compile(r"^<std::slice::Iter<'_, \(PathBuf, Action\)> as Iterator>::next$"), patchmodels._slice_iter_next_any, "slice::Iter::next"),
+                 (_re.compile(r"^<std::slice::Iter<'_, \(PathBuf, Action\)> as Iterator>::partition::<"), partition, "Iterator::partition (two lists, order kept)"),
+                 (_re.compile(r"^<Vec<&\(PathBuf, Action\)> as IntoIterator>::into_iter$|^<&Vec<&\(PathBuf, Action\)> as IntoIterator>::into_iter$"), patchmodels._ref_vec_into_iter, "Vec<&T>::into_iter"),
+                 (_re.compile(r"^<std::vec::IntoIter<&\(PathBuf, Action\)> as Iterator>::next$"), into_iter_next, "vec::IntoIter<&T>::next (yields the element itself)"),
+                 (_re.compile(r"^<std::slice::Iter<'_, &\(PathBuf, Action\)> as Iterator>::next$"), patchmodels._slice_iter_next_any, "slice::Iter<&T>::next"),
                  (_re.compile(r"^(std::option::)?Option::<Archive>::is_some$"), opt_is_some, "Option::is_some"),
                  (_re.compile(r"^(std::option::)?Option::<Archive>::as_ref$"), opt_as_ref, "Option::as_ref"),
                  (_re.compile(r"^<(std::string::)?String as Into<Box<dyn StdError>>>::into$|^<(std::string::)?String as Clone>::clone$|^<(std::string::)?String as Deref>::deref$"), lambda e_, s_, a, d, f, w: a[0], "String conversions"),
@@ -702,7 +786,7 @@ def run_obligations(ctx, R, prover, pid, U=2):
     if pid == "C07":
         goals["the-base-is-trusted-exactly-when-Archive::load-returned-an-archive,-and-is-then-its-entries"] = z3.And(
             rc["trust"] == loaded, rc["a_ok"], rc["b_ok"],
-            z3.Implies(loaded, _all(z3.And(e.f[0].t == pres[("z", u)]) for u, e in enumerate(rc["base_entries"]))),
+            z3.Implies(loaded, _all(z3.And(e.f[0].t == pres[("z", u)]) for u, e in enumerate(rc["base_entries"][:U]))),
             z3.Implies(z3.Not(loaded), _all(z3.Not(e.f[0].t) for e in rc["base_entries"])))
         goals["without-a-trusted-archive-no-Delete-action-is-applied"] = _all(
             z3.Implies(z3.And(ap["guard"], z3.Not(loaded)), z3.And(ap["act"].discr != A["DeleteA"], ap["act"].discr != A["DeleteB"])) for ap in applies)
@@ -735,8 +819,14 @@ def run_obligations(ctx, R, prover, pid, U=2):
                 eb_, et_ = [x.t for x in fsmodels._deep(ex, st, ev.f[0]).f] if isinstance(ev, VStruct) else None, None
                 same_as = lambda fp: z3.And(*[x == y.t for x, y in zip(eb_, fp[1])]) if eb_ else z3.BoolVal(True)
                 per.append(z3.And(e.f[0].t == in_tree, z3.Implies(in_tree, z3.If(holds_a, same_as(fa), same_as(fb)))))
+                # the conflict copy of u exists after the run exactly when u was a both-changed conflict, and is recorded with the LOSING digest
+                ec_ = sv["entries"][U + u]
+                was_both = z3.And(act == A["Conflict"], kind == CK["BothChanged"])
+                cb_ = [x.t for x in fsmodels._deep(ex, st, ec_.f[1].f[0]).f]
+                loser_is = lambda fp: z3.And(*[x == y.t for x, y in zip(cb_, fp[1])])
+                per.append(z3.And(ec_.f[0].t == was_both, z3.Implies(was_both, z3.If(a_wins, loser_is(fb), loser_is(fa)))))
             conds.append(z3.Implies(sv["guard"], z3.And(*per)))
-        goals["the-saved-common-state-has-exactly-the-paths-(and-digests)-both-sides-hold-after-the-run"] = _all(conds)
+        goals["the-saved-common-state-has-exactly-the-paths-(and-digests)-both-sides-hold-after-the-run,-conflict-copies-included"] = _all(conds)
     covers = {"save-reachable": _any(sv["guard"] for sv in saves), "apply-reachable": _any(ap["guard"] for ap in applies)}
     from . import bisyncnative
     bisyncnative.make_witness.history_of_model = lambda model: bisyncnative.history_from_model(model, U, pres, fps, loaded)
